@@ -178,6 +178,22 @@ static void check_cbc(rng &r, size_t blocks)
 			if (b3.substr(16) != plain.substr(16)) O().viol("cbc:nonce-iv-tail-not-identity", rp, rp);
 			O().count("cbc_nonce_checks");
 		}
+		// giving an object that already worked a second key: either refused, or from then on it is an object with that key
+		if (blocks >= 1) {
+			std::string key2 = r.bytes(bits[t] / 8);
+			bool refused = false;
+			try { c->set_key(cppcms::crypto::key(key2.data(), key2.size())); } catch (std::exception const &) { refused = true; }
+			O().count(refused ? "cbc_rekey_refused" : "cbc_rekey_accepted");
+			if (!refused) {
+				c->set_iv(iv.data(), iv.size());
+				std::string ct5(plain.size(), '\0'), b5(plain.size(), '\0');
+				c->encrypt(plain.data(), &ct5[0], (unsigned)plain.size());
+				if (ct5 != ref_cbc(bits[t], key2, iv, plain, true)) O().viol("cbc:second-set_key-ignored-silently", "after set_key(k2) the object still encrypts under " + std::string(ct5 == ref_cbc(bits[t], key, iv, plain, true) ? "the first key" : "neither key"), rp);
+				c->set_iv(iv.data(), iv.size());
+				c->decrypt(ct5.data(), &b5[0], (unsigned)ct5.size());
+				if (b5 != plain) O().viol("cbc:decrypt-encrypt-not-identity", "after a second set_key", rp);
+			}
+		}
 		// wrong sizes are refused
 		bool threw = false;
 		try { std::unique_ptr<cppcms::crypto::cbc> c4 = cppcms::crypto::cbc::create((cppcms::crypto::cbc::cbc_type)t); std::string bad = r.bytes(bits[t] / 8 + 1); c4->set_key(cppcms::crypto::key(bad.data(), bad.size())); } catch (std::exception const &) { threw = true; }
